@@ -98,6 +98,12 @@ CHECKS = {
         text="TLC proves ExecutedOnce, BarredNeverRuns, Bounded and Ordered for every script (2-3 responses x up to 2 call items incl. duplicate call ids via repeated done events, reversed output order, streamed arguments, an unknown tool; 6 response outcomes; 5 tool choices; both history modes) and prints one script per distinct predicted run; the real run must execute exactly the predicted calls in order (the append-only file written by the write tool counts executions), answer exactly the predicted call ids in the very next request, never execute a barred tool, stop at 32 calls, send previous_response_id / an extending input, and never send a request with validation errors.",
         note="The scripted provider records the request bodies actually sent; call alphabet of 3-4 items.",
         ref="4 C16"),
+    "C18": dict(
+        engine="Authority",
+        technique="TLA+ spec Authority (lock.json / meta.json, one action per file-system call of try_acquire, write_meta, Drop, stale and corrupt cleanup, the recovery loop) model-checked with TLC for the atomic-cleanup design and as implemented; complete behaviours TLC enumerates for the as-implemented model are forced on the real acquire_authority_lock_with_recovery with gates at the auth.* hook points and compared step by step (files, results)",
+        text="TLC proves AtMostOne, NeverStealLive, HolderOwnsLock, LiveResidentKept and (fair) Usable for 3 contenders from all six leftover states with releases and a deadline that may expire at any retry when a cleanup's rename is atomic with its check, and finds the counterexamples of the code's check-then-rename sequences; every complete behaviour of 2 contenders of the as-implemented model (43 618; stratified sample in the quick tier; random 3-contender behaviours in the thorough tier) is forced on real threads against a real store directory (dead owner = pid of a reaped child, live resident = this process with a reachable endpoint): after each step lock.json and meta.json are read back and compared with the prediction, takeovers of a live owner's file and simultaneous guards are observed directly; a takeover counts as the recorded finding only where the as-implemented model predicts it at that step.",
+        note="Contenders are threads (same pid); crashes in the middle of a cleanup and the CLI's own loop are not forced; three recorded findings (D9a-c).",
+        ref="4 C18"),
     "C20": dict(
         engine="Surface",
         technique="TLA+ spec Surface (UI state as a fold over arbitrary frame sequences: bounded window, lookup by seq, tool summaries, bounded output) checked with TLC; every generated sequence folded by the real TuiState/FrameStore and rendered on a TestBackend at all widths; observations compared with the model",
